@@ -633,6 +633,9 @@ struct Reg
 			if (!v6only && plan.c(q + "dual")) node_ips[size_t(n)].push_back(ip::make_address_v4("10.0." + std::to_string(n) + ".2"));
 			if (v6only || plan.c(q + "v6")) node_ips[size_t(n)].push_back(ip::make_address_v6("fd00::" + std::to_string(n + 1) + ":1"));
 			if (v6only || plan.c(q + "v6two")) node_ips[size_t(n)].push_back(ip::make_address_v6("fd00::" + std::to_string(n + 1) + ":2"));
+			// the order in which a node is given its addresses is the order that counts ("first address of that family"),
+			// whatever their numeric order
+			if (plan.c(q + "rev")) std::reverse(node_ips[size_t(n)].begin(), node_ips[size_t(n)].end());
 			for (auto const& a : node_ips[size_t(n)])
 			{
 				net.out_spec[a] = {queue_hop(0, plan.c("lat"), 0)};
@@ -689,6 +692,7 @@ struct RegistryEngine : Engine
 		{
 			std::string const q = "n" + std::to_string(n);
 			p.cfg[q + "dual"] = rng.chance(0.4) ? 1 : 0;
+			p.cfg[q + "rev"] = rng.chance(0.3) ? 1 : 0;
 			p.cfg[q + "v6"] = rng.chance(0.4) ? 1 : 0;
 			p.cfg[q + "v6two"] = rng.chance(0.15) ? 1 : 0;
 			p.cfg[q + "v6only"] = rng.chance(0.05) ? 1 : 0;
